@@ -1,0 +1,51 @@
+//go:build verif
+
+package l1infotreesync
+
+import (
+	"context"
+	"database/sql"
+
+	"github.com/agglayer/aggkit/sync"
+)
+
+// This file is only compiled with the `verif` build tag. It adds entry points used by the
+// runtime-verification harness (/verif) and does not change any existing behaviour.
+
+// VerifProcessor is the unexported processor type, usable as the processor of a sync.EVMDriver
+type VerifProcessor = *processor
+
+// VerifNew builds a L1InfoTreeSync facade around a real processor (real SQLite store),
+// without downloader and driver.
+func VerifNew(dbPath string) (*L1InfoTreeSync, error) {
+	p, err := newProcessor(dbPath)
+	if err != nil {
+		return nil, err
+	}
+	return &L1InfoTreeSync{processor: p}, nil
+}
+
+// VerifProcessBlock calls the real processor.ProcessBlock
+func (s *L1InfoTreeSync) VerifProcessBlock(ctx context.Context, block sync.Block) error {
+	return s.processor.ProcessBlock(ctx, block)
+}
+
+// VerifReorg calls the real processor.Reorg
+func (s *L1InfoTreeSync) VerifReorg(ctx context.Context, firstReorgedBlock uint64) error {
+	return s.processor.Reorg(ctx, firstReorgedBlock)
+}
+
+// VerifProcessor returns the real processor
+func (s *L1InfoTreeSync) VerifProcessor() VerifProcessor {
+	return s.processor
+}
+
+// VerifDB returns the database handle of the processor
+func (s *L1InfoTreeSync) VerifDB() *sql.DB {
+	return s.processor.db
+}
+
+// VerifIsHalted reports the halted flag of the processor
+func (s *L1InfoTreeSync) VerifIsHalted() bool {
+	return s.processor.isHalted()
+}
